@@ -1,6 +1,7 @@
 package checks
 
 import (
+	"sync/atomic"
 	"encoding/json"
 	"fmt"
 	"math/big"
@@ -471,11 +472,13 @@ func runWT(s wtScenario) (evs []map[string]any, hung bool) {
 	}
 	sigDone := make(chan struct{})
 	if s.SigAtMs != -1 {
+		var aboutToLock atomic.Bool
 		go func() {
 			defer close(sigDone)
 			if s.SigAtMs >= 0 {
 				time.Sleep(time.Duration(s.SigAtMs) * time.Millisecond)
 			}
+			aboutToLock.Store(true)
 			mu.Lock()
 			if s.Kind == "broadcast" {
 				cond.Broadcast()
@@ -487,7 +490,10 @@ func runWT(s wtScenario) (evs []map[string]any, hung bool) {
 			add(map[string]any{"ev": "signal", "t": t, "kind": s.Kind})
 		}()
 		if s.SigAtMs == -2 {
-			time.Sleep(10 * time.Millisecond) // signaller is blocked on mu.Lock() now
+			for !aboutToLock.Load() {
+				time.Sleep(time.Millisecond)
+			}
+			time.Sleep(40 * time.Millisecond) // signaller is blocked on mu.Lock() now (also on a loaded machine)
 		}
 	} else {
 		close(sigDone)
